@@ -135,6 +135,35 @@ theorem join_globals_must_be_renamed :
       [("idx", .int32), ("x", .int32), ("x_1", .float64)], ["idx"]⟩ := by
   decide
 
+/-- **keyed lookups `right[exprs]` / `right.index(exprs, all_matches)`**: for BOTH values of `all_matches` (the `product` flag of the
+emitted node) the type the front end attaches to the looked-up value is the type of the root field the emitted join node
+(`TableLeftJoinRightDistinct`, `TableIntervalJoin(product)`, or the former on `collect_by_key`) inserts by the engine's rule. -/
+theorem index_root_well_typed (r : TType) (exprTypes : List HType) (allMatches : Bool) :
+    rootIR r exprTypes allMatches = rootReported r exprTypes allMatches := rootIR_eq_reported r exprTypes allMatches
+
+/-- … hence the annotated table (value used as it is, or under `hl.len`) has the reported type -/
+theorem index_annotate_well_typed (l r : TType) (exprTypes : List HType) (allMatches len : Bool) (m : String) :
+    indexAnnotate rootIR l r exprTypes allMatches len m = indexAnnotate rootReported l r exprTypes allMatches len m := by
+  unfold indexAnnotate; rw [index_root_well_typed]
+
+theorem matrix_index_annotate_well_typed (m : MatrixType.MType) (a : MatrixType.Axis) (r : TType) (exprTypes : List HType)
+    (allMatches len : Bool) (name : String) :
+    MatrixType.indexAnnotate rootIR m a r exprTypes allMatches len name
+      = MatrixType.indexAnnotate rootReported m a r exprTypes allMatches len name := by
+  unfold MatrixType.indexAnnotate; rw [index_root_well_typed]
+
+/-- the node choice matters: a `TableIntervalJoin` emitted without the product flag inserts a struct, not the reported array -/
+theorem index_interval_needs_product (r : TType) : nodeRoot r (.intervalJoin false) ≠ .array (valueStruct r) :=
+  intervalJoin_needs_product r
+
+/-- an interval-keyed right table, `all_matches=True`: `TableIntervalJoin(product = true)`, an array of the value struct; a point
+key with `all_matches=True`: the `collect_by_key` path -/
+example : chooseNode ⟨[], [("iv", .interval .int32), ("w", .float64)], ["iv"]⟩ [.int32] true = some (.intervalJoin true)
+    ∧ rootReported ⟨[], [("iv", .interval .int32), ("w", .float64)], ["iv"]⟩ [.int32] true
+        = some (.array (.struct (.cons "w" .float64 .nil)))
+    ∧ chooseNode ⟨[], [("idx", .int32), ("w", .float64)], ["idx"]⟩ [.int32] true = some (.leftJoinRightDistinct true)
+    ∧ chooseNode ⟨[], [("idx", .int32), ("w", .float64)], ["idx"]⟩ [.str] false = none := by decide
+
 theorem orderBy_clears_key (t : TType) : (orderBy t).key = [] ∧ (orderBy t).row = t.row := orderBy_key t
 
 /-! ## MatrixTable API: keys -/
